@@ -29,13 +29,13 @@ def gen_sonar_doc(rng, uid):
         for _ in range(rng.randint(0, 4)):
             uid[0] += 1
             f = {"key": f"AX-{uid[0]}", "status": rng.choice(["OPEN", "OPEN", "TO_REVIEW", "RESOLVED", "CLOSED", "REVIEWED", "open"]),
-                 "component": rng.choice(["proj:", "", "org_proj:"]) + rng.choice(FILES), "message": f"msg {uid[0]}"}
+                 "component": rng.choice(["proj:", "", "org_proj:", "org.acme:backend:", "my-org:team:service:"]) + rng.choice(FILES), "message": f"msg {uid[0]}"}
             f["rule" if k == "issues" else "ruleKey"] = rng.choice(SONAR_RULES)
             if rng.random() < 0.9:
                 l = rng.randint(1, 30)
                 f["textRange"] = {"startLine": l, "endLine": l + rng.choice([0, 0, 1]), "startOffset": rng.randint(0, 20), "endOffset": rng.randint(21, 60)}
             if rng.random() < 0.2:
-                f["flows"] = [{"locations": [{"component": "proj:" + rng.choice(FILES), "textRange": {"startLine": 1, "endLine": 1, "startOffset": 0, "endOffset": 3}}]}]
+                f["flows"] = [{"locations": [{"component": rng.choice(["proj:", "org.acme:backend:"]) + rng.choice(FILES), "textRange": {"startLine": 1, "endLine": 1, "startOffset": 0, "endOffset": 3}}]}]
             lst.append(f)
         doc[k] = lst
     if rng.random() < 0.1:
@@ -180,6 +180,17 @@ class C12(Check):
                 ops.append([rng.choice(["or", "ior"])])
             if rng.random() < 0.3:
                 ops.append(["accumulate", order[::-1]])
+        if rng.random() < 0.5:
+            # history inside one process: further requests for other combinations of the same (memoised) files must still
+            # see each file as it is on disk
+            for _ in range(rng.randint(1, 3)):
+                if rng.random() < 0.6:
+                    sub = rng.sample(range(m), rng.randint(1, m))
+                    if rng.random() < 0.5:
+                        sub.sort(key=lambda j: (j != order[0], rng.random()))  # same first file as before, other companions
+                    ops.append(["accumulate", sub])
+                else:
+                    ops.append(["load", rng.randrange(m)])
         return {"kind": f"merge:{tool}", "tool": tool, "docs": docs, "ops": ops}
 
     def gen_delivery(self, rng):
@@ -266,6 +277,10 @@ class C12(Check):
                             d["file_path"] = "not/in/project.py"
                             d["id"] = 99002
                             p.insert(0, d)
+                    if kind.startswith("sonar"):
+                        # the component key carries the project key, which may itself contain colons
+                        prefix = rng.choice(["", "", "proj:", "org.acme:backend:", "my-org:team:service:"])
+                        p = [dict(d, component=prefix + str(d.get("component", "")).split(":")[-1]) for d in p]
                     name = f"{kind.replace(':', '-')}-{j}.json"
                     results[name] = enc(json.dumps(W.make_result_doc(kind, p)).encode())
                     names.append(name)
